@@ -32,6 +32,16 @@ class AbstractHelp(Component):
     def _render_help(self, layout):  # type: (BlockLayout) -> None
         raise NotImplementedError()
 
+    def _format_help(self, help, **placeholders):  # type: (str, ...) -> str
+        try:
+            return help.format(**placeholders)
+        except (KeyError, IndexError, ValueError):
+            # Free text with braces of its own: only the placeholders are replaced
+            for name, value in placeholders.items():
+                help = help.replace("{" + name + "}", value)
+
+            return help
+
     def _render_arguments(
         self, layout, arguments
     ):  # type: (BlockLayout, Iterable[Argument]) -> None
